@@ -24,6 +24,9 @@ def confirm(wt, which, sid, features):
     seed = os.path.join(wt, "_seed")
     patch = os.path.join(seed, f"{which}.diff")
     demo = os.path.join(seed, f"demo_{which.lower()}.rs")
+    first = open(demo).readline()
+    if not features and first.startswith("// features:"):
+        features = first.split(":", 1)[1].strip()
     feat = f"--features {features}" if features else ""
     res = {"seed": sid, "worktree": wt, "ran": []}
     sh("git checkout -- . && rm -rf tests", wt)
@@ -72,8 +75,29 @@ def detect(sid, props, tier):
         return 2
     rc, out = sh(f"git -C /repo apply {patch}", "/repo")
     if rc != 0:
-        print("patch does not apply to /repo:", out)
-        return 2
+        # the tree may have moved since the seed was made (hook lines next to the change): try a 3-way merge, then patch(1)
+        rc, out = sh(f"git -C /repo apply -3 {patch}", "/repo")
+        if rc != 0:
+            subprocess.run(["git", "-C", "/repo", "checkout", "--", "."])
+            subprocess.run(["git", "-C", "/repo", "reset", "-q"])
+            rc, out = sh(f"patch -p1 --fuzz=3 --no-backup-if-mismatch -i {patch}", "/repo")
+        if rc != 0:
+            # last resort: the seed rewrites a region that now carries hook lines; put the touched files back to the
+            # pre-hooks version (the seed's base) and apply there (the hook counters of those files are lost for this run)
+            subprocess.run(["git", "-C", "/repo", "checkout", "--", "."])
+            subprocess.run("find /repo/src -name '*.rej' -delete; find /repo/src -name '*.orig' -delete", shell=True)
+            base = "b56879d"
+            files = [l[6:].strip() for l in open(patch) if l.startswith("+++ b/")]
+            for f in files:
+                old = subprocess.run(["git", "-C", "/repo", "show", f"{base}:{f}"], capture_output=True, text=True)
+                if old.returncode == 0:
+                    open(os.path.join("/repo", f), "w").write(old.stdout)
+            rc, out = sh(f"git -C /repo apply {patch}", "/repo")
+        if rc != 0:
+            subprocess.run(["git", "-C", "/repo", "checkout", "--", "."])
+            print("patch does not apply to /repo:", out)
+            return 2
+        subprocess.run(["git", "-C", "/repo", "reset", "-q"])
     results = {}
     try:
         for p in props:
